@@ -196,3 +196,10 @@ func Bound(name string, def int) int {
 // AdvanceClock lets the (symbolic) clock move forward by 0..maxSeconds. The
 // engine's clock only moves here; natively the real clock runs by itself.
 func AdvanceClock(name string, maxSeconds int64) {}
+
+var marks = map[string]int{}
+
+// Mark counts an event (e.g. "the upstream was reached"); Marked reads the count.
+// The engine's stubs of environment functions (reverse proxy) call Mark themselves.
+func Mark(label string)       { marks[label]++ }
+func Marked(label string) int { return marks[label] }
